@@ -31,6 +31,10 @@ def build(d):
     cspuz.config.use_graph_primitive = bool(d["primitive"])
     try:
         if form == "grid":
+            if d.get("prior"):
+                # history: another grid with other roots went through division_connected earlier in this process (throw-away Solver)
+                t = Solver()
+                G.division_connected(t, t.int_array((h, w), 0, 1), 2, roots=[(h - 1, w - 1), (0, 0)])
             r2 = None if roots is None else [None if r is None else (r // w, r % w) for r in roots]
             G.division_connected(s, IntArray2D(items, (h, w)), k, roots=r2, allow_empty_group=d["allow_empty"])
         else:
@@ -69,7 +73,9 @@ def _roots_lists(n, k, rng, many):
                 i, j = rng.sample(range(k), 2)
                 r[i], r[j] = a, b
                 out.append(r)
-            out.append([0, 0] + [None] * (k - 2))   # the same vertex demanded by two regions: unsatisfiable by spec too
+    if k >= 2 and n >= 2:
+        out.append([n - 1, n - 1] + [None] * (k - 2))   # the same vertex demanded by two regions: unsatisfiable by spec too
+        out.append([0] + [None] * (k - 2) + [0])
     return out
 
 
@@ -118,6 +124,12 @@ def instances(tier, rng):
                     for ri, roots in enumerate(_roots_lists(h * w, k, rng, False)):
                         out.append(dict(name="grid%dx%d/k%d/ae%d/pr%d/r%d" % (h, w, k, ae, prim, ri), form="grid", h=h, w=w, k=k,
                                         allow_empty=ae, primitive=prim, roots=roots, labels="vars"))
+    for (h, w) in [(1, 2), (2, 2), (2, 3)]:
+        for k in (1, 2):
+            for prim in (False, True):
+                for ri, roots in enumerate([None, [0] + [None] * (k - 1), []]):
+                    out.append(dict(name="grid%dx%d/k%d/ae0/pr%d/r%d/after-other-roots" % (h, w, k, prim, ri), form="grid", h=h, w=w, k=k,
+                                    allow_empty=False, primitive=prim, roots=roots, labels="vars", prior=True))
     return out
 
 
